@@ -306,8 +306,10 @@ void OPN2::noteOn(size_t c, double tone)
 #ifdef OPNMIDI_VERIF
     if(m_verifNoteTap && (hertz < 0 || hertz > 131071)) m_verifNoteTap(m_verifTapData, c, tone, -1.0);
 #endif
-    if(hertz < 0 || hertz > 131071) // Avoid infinite loop
+    if(hertz < 0) // Avoid infinite loop
         return;
+    if(hertz > 131071) // Beyond the range (also +inf): sound at the limit, the note stays accounted as keyed on
+        hertz = 131071;
 
     double coef;
     switch(m_chipFamily)
